@@ -22,13 +22,15 @@ SPEC = {
                         "document-level normalisations (header split, complement links, grouping) are decided by oracle + correspondence"],
     },
     "C02": {
-        "LEAN": {"modules": ["GfaProofs.Bridge.Geometry", "GfaProofs.C02"], "support": ["GfaModel.Graph", "GfaModel.GraphObs", "GfaProofs.Lemmas.Graph", "GfaProofs.C09"],
-                 "theorems": ["Gfa.C02.closed_reachable_partial", "Gfa.C02.step_closed", "Gfa.C02.add_closed", "Gfa.C02.rm_closed",
+        "LEAN": {"modules": ["GfaProofs.Bridge.Geometry", "GfaProofs.C02", "GfaProofs.C02Rename"], "support": ["GfaModel.Graph", "GfaModel.GraphObs", "GfaProofs.Lemmas.Graph", "GfaProofs.C09"],
+                 "theorems": ["Gfa.C02.closed_reachable", "Gfa.C02.rename_closed", "Gfa.C02.renameIn_segRefs", "Gfa.C02.renameIn_itemRefs",
+                              "Gfa.C02.closed_reachable_partial", "Gfa.C02.step_closed", "Gfa.C02.add_closed", "Gfa.C02.rm_closed",
                               "Gfa.C02.rmIdx_closed", "Gfa.C02.rm_no_zombie", "Gfa.C02.reference_resolves", "Gfa.C02.ensureRefs_grow",
                               "Gfa.C02.cascade_closed", "Gfa.C02.live_not_dependent", "Gfa.C09.nodup_reachable",
                               "Gfa.Bridge.Geometry.refkey_table", "Gfa.Bridge.Geometry.linkKey_table", "Gfa.Bridge.Geometry.gapKey_table"]},
-        "ASSUMPTIONS": ["closure is proved for histories of add_line / rm (closed_reachable_partial); for rename the substitution lemmas are not proved "
-                        "(the executable model substitutes, the correspondence compares the complete observation after every rename)",
+        "ASSUMPTIONS": ["closure is proved for every history of add_line / rm / rename (closed_reachable); a rename is given an identifier in use "
+                        "(not empty, not '*') and a new identifier that is not empty, not '*' and free of ',' and ' ' (okOp) - other new identifiers "
+                        "are refused by the library's field validation",
                         "symmetry reference/back-reference: back-reference collections are queries over forward references in the model, so for that "
                         "clause the claim about the code rests on the correspondence (every collection of every line after every step) and the oracle",
                         "path -> link resolution is dynamic in the model (first compatible stored link)"],
